@@ -96,6 +96,10 @@ def gate2 (name : String) (ns : List Nat) (p : List Float) : R (M CFloat) :=
   | "givens" => .ok (givens envF2 (g 0))
   | "riswap" => .ok (riswap envF2 (g 0))
   | "cphase" => .ok (cphase envF2 (g 0))
+  | "identity_shape" => .ok (eye (n 0))
+  | "cypow" => .ok (cypow envF2 (g 0) (g 1))
+  | "ccypow" => .ok (ccypow envF2 (g 0) (g 1))
+  | "pauli_interaction" => .ok (pauliInteraction envF2 (n 0) (n 1 == 1) (n 2) (n 3 == 1) (g 0))
   | _ => .error s!"unknown gate {name}"
 
 def kraus2 (name : String) (ns : List Nat) (p : List Float) (j : Json) : R (List (M CFloat)) := do
@@ -108,6 +112,16 @@ def kraus2 (name : String) (ns : List Nat) (p : List Float) (j : Json) : R (List
   | "pauli_mixture" =>
     let strs ← listF (asList asNat) j "strings"
     return pauliMixture envF2 (strs.zip p)
+  | "uniform_superposition" => return [[uniformSuperposition envF2 (n 0) (n 1)]]
+  | "parallel" =>
+    let sub ← listF pM j "sub"
+    return [parallel (sub.headD []) (n 0)]
+  | "state_preparation" =>
+    let psi ← listF pM j "sub"
+    return statePreparation ((psi.headD []).headD [])
+  | "mixed_unitary" =>
+    let sub ← listF pM j "sub"
+    return mixedUnitary envF2 (p.zip sub)
   | "random_gate" =>
     let sub ← listF pM j "sub"
     return randomGate envF2 (g 0) sub (n 0)
